@@ -1,0 +1,11 @@
+//go:build verif
+
+package nfs
+
+import "github.com/mit-pdos/go-nfsd/fstxn"
+
+// Accessors for the verification harness (built only with -tags verif).
+
+func (nfs *Nfs) VerifFsState() *fstxn.FsState { return nfs.fsstate }
+
+func (nfs *Nfs) VerifShrinkerThreads() uint32 { return nfs.shrinkst.VerifNthread() }
